@@ -274,7 +274,7 @@ fn note(kind: &str, root: usize, e: &(bool, String, String), decor: usize) -> St
 
 fn rand_entry(rng: &mut Prng) -> (bool, String, String) {
     if rng.chance(1, 20) { return (true, String::new(), String::new()); }
-    let depth = rng.range(1, 3);
+    let depth = if rng.chance(1, 6) { rng.range(4, 6) } else { rng.range(1, 3) };
     let segs: Vec<&str> = (0..depth).map(|_| *rng.pick(SEGS)).collect();
     let dir = rng.chance(1, 3);
     (dir, segs.join("."), if dir { String::new() } else { rng.pick(EXTS).to_string() })
@@ -338,7 +338,7 @@ impl Engine for WatchEngine {
             // path_of over valid and odd ids, and back
             8 => {
                 l.push(format!("roots 0 {}", gp_b(b"r0")));
-                for id in ["", "a", "a.b", "a.b.dir", "é.x y", "a..b", ".a", "a.", "."] {
+                for id in ["", "a", "a.b", "a.b.dir", "a.b.dir.x y", "a.b.dir.x y.A1.é", "é.x y", "a..b", ".a", "a.", "."] {
                     for ext in ["", "txt", "é", "tar.gz"] { l.push(format!("pathof f {} {}", hexs(id), hexs(ext))); }
                     l.push(format!("pathof d {} -", hexs(id)));
                 }
@@ -471,8 +471,15 @@ impl Engine for WatchEngine {
                     rec.stat(format!("roots/{}", roots.len()));
                     live = Some(Live { roots, handler, rx: Some(rx), had_watcher });
                 }
-                "mk" => mk(&resolve(&base, w[2]), w[1] == "d"),
-                "rm" => rm(&resolve(&base, w[1])),
+                "mk" | "rm" => {
+                    // never turn the base or a root (or one of their ancestors) into a file / remove it
+                    let target = resolve(&base, w[w.len() - 1]);
+                    let tl = lexical(&target);
+                    let covers = |p: &Path| { let pl = lexical(p); pl.len() >= tl.len() && pl[..tl.len()] == tl[..] };
+                    let protected = covers(&base) || live.as_ref().map_or(false, |lv| lv.roots.iter().any(|r| covers(r)));
+                    if protected && !(w[0] == "mk" && w[1] == "d") { rec.stat("skipped/protected-path"); continue; }
+                    if w[0] == "mk" { mk(&target, w[1] == "d") } else { rm(&target) }
+                }
                 "id" => {
                     let (root, path) = (resolve(&base, w[1]), resolve(&base, w[2]));
                     let d = path.is_dir();
@@ -558,6 +565,7 @@ impl Engine for WatchEngine {
                     // the plain path (own join, from the statement) and the spelled path with detours
                     let own = ent(dir, &id, &ext);
                     let plain = own_path_of(&lv.roots[ri], &own);
+                    ensure_dirs(&base, &lv.roots[ri]);
                     if let Some(par) = plain.parent() { if !id.is_empty() { ensure_dirs(&lv.roots[ri], par); } }
                     let mut spelled = lv.roots[ri].clone();
                     for (k, s) in segs.iter().enumerate() {
@@ -577,23 +585,28 @@ impl Engine for WatchEngine {
                     rec.stat(format!("note/{}/{}/depth{}{}", w[1], w[3], segs.len(), if decor != 0 { "/detour" } else { "" }));
                     rec.nontrivial = true;
                     let got: Vec<OwnedDirEntry> = msgs.into_iter().flatten().collect();
-                    // the same entry seen from every other root that covers it
+                    // the same entry seen from every other root the spelled path literally starts with;
+                    // roots that cover it only after resolving a detour may name it or not
                     let full = lexical(&plain);
-                    let mut others = vec![];
+                    let (mut others, mut lenient) = (vec![], vec![]);
                     for (j, r) in lv.roots.iter().enumerate() {
                         if j == ri { continue; }
                         let rl = lexical(r);
                         if full.len() >= rl.len() && full[..rl.len()] == rl[..] {
-                            let rest: Vec<String> = full[rl.len()..].iter().map(|b| String::from_utf8_lossy(b).into_owned()).collect();
-                            if rest.is_empty() { others.push(OwnedDirEntry::Directory("".into())); continue; }
-                            let mut rest = rest;
-                            if !dir && !ext.is_empty() { let l = rest.pop().unwrap(); rest.push(l[..l.len() - ext.len() - 1].to_string()); }
-                            others.push(ent(dir, &rest.join("."), &ext));
+                            let mut rest: Vec<String> = full[rl.len()..].iter().map(|b| String::from_utf8_lossy(b).into_owned()).collect();
+                            let seen = if rest.is_empty() { OwnedDirEntry::Directory("".into()) } else {
+                                if !dir && !ext.is_empty() { let l = rest.pop().unwrap(); rest.push(l[..l.len() - ext.len() - 1].to_string()); }
+                                ent(dir, &rest.join("."), &ext)
+                            };
+                            if spelled.starts_with(r) { others.push(seen); } else {
+                                if let Some(p) = parent_ent(ent_id(&seen)) { lenient.push(p); }
+                                lenient.push(seen);
+                            }
                         }
                     }
                     let what = format!("{} of {} under root {ri} (path {:?})", w[1], show_ent(&own), spelled.strip_prefix(&base).unwrap_or(&spelled));
                     let detour_before_last = !segs.is_empty() && decor >> (2 * (segs.len() - 1) + 1) & 1 == 1;
-                    if lv.rx.is_some() { judge(kind, &own, &others, &got, &[], detour_before_last, &what, &mut fails); }
+                    if lv.rx.is_some() { judge(kind, &own, &others, &got, &lenient, detour_before_last, &what, &mut fails); }
                     lv.watcher_check(&what, &mut fails);
                 }
                 "real-roots" | "real" | "real-start" => real.line(&base, &w, rec, &mut fails),
